@@ -25,11 +25,14 @@ def _strip(res):
     return res
 
 
-def make_runner(prop, cfg_fn):
+def make_runner(prop, cfg_fn, known=None):
+    known = known if known is not None else common.load_known(prop)
+
     def run_seed(run_seed: int) -> dict:
         from sim import session
 
         cfg = cfg_fn(run_seed)
+        cfg["known"] = known
         res = session.generate_and_run(run_seed, cfg)
         res["engine"] = "session"
         res["n_ops"] = sum(a + b for a, b in res.get("ops", {}).values())
